@@ -44,6 +44,8 @@ def prop(pid, **kw):
 
 for _p in ["C%02d" % i for i in range(1, 20)]:
     prop(_p)
+for _p in ("C08", "C09", "C17"):
+    PROPS[_p]["tags"] = "verif binary_log"
 
 
 def sh(cmd, cwd=None, env=None, timeout=None, shell=False):
